@@ -144,6 +144,9 @@ func (x *Exec) remat(st *State, v ssa.Value) Value {
 		st.remat = append(st.remat, name)
 		val := Value{K: VRef, T: name, Ty: ins.Type()}
 		st.env[v] = val
+		if constCell(ins) {
+			st.markConst(name)
+		}
 		return val
 	case *ssa.FieldAddr, *ssa.IndexAddr, *ssa.BinOp, *ssa.Convert, *ssa.ChangeType, *ssa.Slice, *ssa.Field, *ssa.Extract, *ssa.MakeInterface, *ssa.ChangeInterface, *ssa.Lookup, *ssa.Index:
 		if b, ok := ins.(*ssa.BinOp); ok && (b.Op == token.QUO || b.Op == token.REM) {
@@ -246,6 +249,9 @@ func (x *Exec) step(st *State, fn *ssa.Function, ins ssa.Instruction, top bool) 
 	case *ssa.Alloc:
 		pt := ins.Type().(*types.Pointer).Elem()
 		st.env[ins] = st.alloc(pt)
+		if constCell(ins) {
+			st.markConst(st.env[ins].T)
+		}
 	case *ssa.Store:
 		a := x.get(st, ins.Addr)
 		x.nilCheck(st, ins, a)
@@ -261,6 +267,7 @@ func (x *Exec) step(st *State, fn *ssa.Function, ins ssa.Instruction, top bool) 
 			ix = ad.Idx[0]
 		}
 		x.frameCheck(st, ins, ad.Key, ad.Root, ix, ad.Key)
+		x.accessCheck(st, ins, ad)
 		st.storeAt(ad, val)
 	case *ssa.UnOp:
 		xv := x.get(st, ins.X)
@@ -282,7 +289,9 @@ func (x *Exec) step(st *State, fn *ssa.Function, ins ssa.Instruction, top bool) 
 				}
 				st.unsupported("load through an unsafe pointer conversion")
 			}
-			st.env[ins] = st.loadAt(x.addrOf(st, xv, ins))
+			la := x.addrOf(st, xv, ins)
+			x.accessCheck(st, ins, la)
+			st.env[ins] = st.loadAt(la)
 		case token.SUB:
 			if xv.K == VReal {
 				st.env[ins] = Value{K: VReal, T: "(- " + xv.T + ")", Ty: ins.Type()}
@@ -387,6 +396,19 @@ func (x *Exec) step(st *State, fn *ssa.Function, ins ssa.Instruction, top bool) 
 		}
 		if xv.K == VRef {
 			v.Fs = []Value{xv} // dynamic value known on this path (used by modifies dyn(x).*)
+			// an object allocated during this call and converted to an interface exactly once:
+			// the ghost state attached to the new interface identity is still initial
+			if soleIfaceConversion(ins) {
+				for _, g := range x.eng.cs.Ghosts {
+					if g.Arg != "iface" {
+						continue
+					}
+					sort, _ := ghostSort(g)
+					z := ghostZero(g.Res)
+					h := st.heapTermIn(st.heap, "ghost:"+g.Name, 1, sort)
+					st.assume(fmt.Sprintf("(=> (>= %s |brk0|) (= (select %s %s) %s))", xv.T, h, v.T, z))
+				}
+			}
 		}
 		st.env[ins] = v
 	case *ssa.ChangeInterface:
@@ -421,8 +443,16 @@ func (x *Exec) step(st *State, fn *ssa.Function, ins ssa.Instruction, top bool) 
 		for _, b := range ins.Bindings {
 			binds = append(binds, x.get(st, b))
 		}
-		v := st.fresh(ins.Type(), "clo")
-		st.assume(fmt.Sprintf("(not (= %s 0))", v.T))
+		idc := st.alloc(types.Typ[types.Bool]) // a closure value is a new object with its own identity
+		v := Value{K: VFunc, T: idc.T, Ty: ins.Type()}
+		for _, g := range x.eng.cs.Ghosts {
+			if g.Arg != "func" {
+				continue
+			}
+			sort, _ := ghostSort(g)
+			h := st.heapTermIn(st.heap, "ghost:"+g.Name, 1, sort)
+			st.heapSet("ghost:"+g.Name, fmt.Sprintf("(store %s %s %s)", h, v.T, ghostZero(g.Res)))
+		}
 		v.Clo = &Closure{Fn: f, Binds: binds}
 		x.closurePre(st, ins, f, binds)
 		st.env[ins] = v
@@ -436,8 +466,15 @@ func (x *Exec) step(st *State, fn *ssa.Function, ins ssa.Instruction, top bool) 
 	case *ssa.MakeMap:
 		st.env[ins] = x.makeMap(st, ins)
 	case *ssa.MakeChan:
-		v := st.fresh(ins.Type(), "chan")
-		st.assume(fmt.Sprintf("(not (= %s 0))", v.T))
+		idv := st.alloc(types.Typ[types.Bool]) // fresh channel identity
+		v := Value{K: VChan, T: idv.T, Ty: ins.Type()}
+		sz := x.get(st, ins.Size)
+		for _, g := range [][2]string{{"chan_cap", sz.T}, {"chan_sends", "0"}, {"chan_recvs", "0"}} {
+			h := st.heapTermIn(st.heap, "ghost:"+g[0], 1, "Int")
+			st.heapSet("ghost:"+g[0], fmt.Sprintf("(store %s %s %s)", h, v.T, g[1]))
+		}
+		ch := st.heapTermIn(st.heap, "ghost:chan_closed", 1, "Bool")
+		st.heapSet("ghost:chan_closed", fmt.Sprintf("(store %s %s false)", ch, v.T))
 		st.env[ins] = v
 	case *ssa.MapUpdate:
 		return x.mapUpdate(st, ins)
@@ -832,4 +869,91 @@ func divFacts(a, b string, t types.Type) string {
 	}
 	return fmt.Sprintf("(=> (not (= %s 0)) (and (ite %s (and (= %s %s) (= %s 0)) (= %s (+ (* %s %s) %s))) (ite (>= %s 0) (and (<= 0 %s) (< %s %s)) (and (<= %s 0) (< (- %s) %s))) %s))",
 		b, ovf, q, a, r, a, q, b, r, a, r, r, absb, r, r, absb, rng)
+}
+
+// accessCheck emits the lock-discipline obligations for a direct read or write of a field
+// declared `guarded ... by <mutex>` (the mutex of the same object must be held) or
+// `atomicfield` (only sync/atomic may touch it), unless the object was allocated in this call
+// and is therefore not yet shared.
+func (x *Exec) accessCheck(st *State, ins ssa.Instruction, a Addr) {
+	cs := x.eng.cs
+	if len(cs.Guarded) == 0 && len(cs.Atomic) == 0 || st.quiet > 0 {
+		return
+	}
+	base := a.Key
+	if i := strings.Index(base, "#"); i >= 0 {
+		base = base[:i]
+	}
+	if _, ok := cs.Guarded[base]; ok {
+		h := st.heapTermIn(st.heap, "ghost:mu_held", 1, "Bool")
+		goal := fmt.Sprintf("(or (>= %s |brk0|) (select %s %s))", a.Root, h, a.Root)
+		x.eng.oblige(x.fx, st, "lock", x.fx.siteKey(ins, base), goal, "access to "+base+" without holding "+cs.Guarded[base], ins.Pos())
+	}
+	if cs.Atomic[base] {
+		goal := fmt.Sprintf("(>= %s |brk0|)", a.Root)
+		x.eng.oblige(x.fx, st, "atomic", x.fx.siteKey(ins, base), goal, "plain (non-atomic) access to "+base, ins.Pos())
+	}
+}
+
+// mutexCall models sync.Mutex / sync.RWMutex operations on the ghost lock state of the object
+// that contains the mutex. It returns true if the call was handled.
+func (x *Exec) mutexCall(st *State, ins ssa.Instruction, name string, args []Value) bool {
+	var op string
+	switch name {
+	case "sync.(*Mutex).Lock", "sync.(*RWMutex).Lock", "sync.(*RWMutex).RLock":
+		op = "lock"
+	case "sync.(*Mutex).Unlock", "sync.(*RWMutex).Unlock", "sync.(*RWMutex).RUnlock":
+		op = "unlock"
+	default:
+		return false
+	}
+	if len(args) == 0 {
+		return false
+	}
+	root := args[0].T
+	if args[0].K == VAddr {
+		root = args[0].A.Root
+	}
+	if root == "" {
+		return false
+	}
+	h := st.heapTermIn(st.heap, "ghost:mu_held", 1, "Bool")
+	if op == "lock" {
+		x.panicObl(st, ins, "lock", fmt.Sprintf("(not (select %s %s))", h, root), "mutex locked while already held by this goroutine (self-deadlock)")
+		st.heapSet("ghost:mu_held", fmt.Sprintf("(store %s %s true)", h, root))
+	} else {
+		x.panicObl(st, ins, "lock", fmt.Sprintf("(select %s %s)", h, root), "unlock of a mutex that is not held")
+		st.heapSet("ghost:mu_held", fmt.Sprintf("(store %s %s false)", h, root))
+	}
+	return true
+}
+
+func soleIfaceConversion(mi *ssa.MakeInterface) bool {
+	refs := mi.X.Referrers()
+	if refs == nil {
+		return false
+	}
+	n := 0
+	for _, r := range *refs {
+		if _, ok := r.(*ssa.MakeInterface); ok {
+			n++
+		}
+	}
+	return n == 1
+}
+
+func ghostZero(res string) string {
+	switch res {
+	case "bool":
+		return "false"
+	case "str":
+		return "str_empty"
+	case "real":
+		return "0.0"
+	case "bytes", "ints":
+		return "((as const (Array Int Int)) 0)"
+	case "reals":
+		return "((as const (Array Int Real)) 0.0)"
+	}
+	return "0"
 }
